@@ -2,7 +2,7 @@
 # dev/refac_run.sh <ID> <check ids...>: run the given checks against the behaviour-preserving refactoring in /tmp/wt4/<ID> (patch applied); every check must exit 0
 B=${RBASE:-/tmp/wt4}; ID=$1; shift; WT=$B/$ID
 git -C $WT checkout -q -- . && git -C $WT apply $B/${ID}_out/patch.diff || { echo "APPLY FAILED"; exit 9; }
-(cd $WT && PYTHONPATH=$WT JAX_PLATFORMS=cpu timeout 1500 /venv/bin/python $B/${ID}_out/equiv.py > $B/${ID}_equiv.log 2>&1; echo "refactor $ID: equiv.py exit=$?")
+(cd $WT && [ -z "$SKIP_EQUIV" ] && PYTHONPATH=$WT JAX_PLATFORMS=cpu timeout 1500 /venv/bin/python $B/${ID}_out/equiv.py > $B/${ID}_equiv.log 2>&1; echo "refactor $ID: equiv.py exit=$?")
 for C in "$@"; do
   cd /verif && VERIF_REPO=$WT timeout 3000 ./vcheck $C --tier quick --no-evidence > $B/${ID}_$C.log 2>&1; rc=$?
   echo "refactor $ID: check $C exit=$rc  $(grep 'tier=' $B/${ID}_$C.log | sed 's/.*required obligations, //' | cut -c1-110)"
